@@ -212,6 +212,10 @@ pub struct Scenario {
     pub depth: u32,
     /// Free-form labels describing the shape (query shape, data faults fired...) for evidence.
     pub tags: Vec<String>,
+    /// Tables are registered under `<prefix>.<name>` (a schema-qualified catalogue); queries may
+    /// still name them by their last component.
+    #[serde(default)]
+    pub schema_prefix: Option<String>,
 }
 
 impl Scenario {
@@ -221,6 +225,10 @@ impl Scenario {
     }
     /// `name` is the SQL name (path) of a table.
     pub fn is_protected(&self, name: &str) -> bool {
+        let name = match &self.schema_prefix {
+            Some(p) => name.strip_prefix(&format!("{}.", p)).unwrap_or(name),
+            None => name,
+        };
         match self.tables.iter().find(|t| t.name == name) {
             Some(t) => self.pu.entries.iter().any(|e| t.has_key(&e.table)),
             None => false,
@@ -246,12 +254,21 @@ impl Scenario {
             }
             let rel: Relation = Relation::table()
                 .name(t.relation_name())
-                .path([t.name.as_str()])
+                .path(match &self.schema_prefix {
+                    Some(p) => vec![p.clone(), t.name.clone()],
+                    None => vec![t.name.clone()],
+                })
                 .size(t.size)
                 .schema(schema)
                 .build();
             let rel = Arc::new(rel);
-            h = h.with(vec![(vec![t.name.clone()], rel.clone())]);
+            h = h.with(vec![(
+                match &self.schema_prefix {
+                    Some(p) => vec![p.clone(), t.name.clone()],
+                    None => vec![t.name.clone()],
+                },
+                rel.clone(),
+            )]);
             if let Some(n) = &t.qrlew_name {
                 h = h.with(vec![(vec![n.clone()], rel)]);
             }
